@@ -301,6 +301,24 @@ def outcome_formula(repo, fi, classify, stmts=None, env=None, atom=None, max_pat
 def raising_guards(fnode, repo, module, cls=None, env=None, noreturn=()):
     """all `if T: <always raises>` in a function -> [(canonical T, node)]  (assert X counts as `if not X: raise`)"""
     out = []
+    # `if T: return ...` followed, in the same block, by statements that always raise: the raise happens when not T
+    def blocks(node):
+        for f_ in ('body', 'orelse', 'finalbody'):
+            b_ = getattr(node, f_, None)
+            if isinstance(b_, list) and b_ and isinstance(b_[0], ast.stmt):
+                yield b_
+                for s_ in b_:
+                    if not isinstance(s_, (ast.FunctionDef, ast.AsyncFunctionDef, ast.ClassDef)):
+                        for x in blocks(s_):
+                            yield x
+    for blk in blocks(fnode):
+        for k_, s_ in enumerate(blk):
+            if isinstance(s_, ast.If) and not s_.orelse and flow.always_exits(s_.body, noreturn) and not flow.always_raises(s_.body, noreturn) \
+                    and k_ + 1 < len(blk) and flow.always_raises(blk[k_ + 1:], noreturn) and isinstance(blk[k_ + 1], ast.Raise):
+                holder = ast.If(test=ast.UnaryOp(op=ast.Not(), operand=s_.test), body=[blk[k_ + 1]], orelse=[])
+                ast.copy_location(holder, s_)
+                holder._parent = getattr(s_, '_parent', None)
+                out.append((canon_guard(s_.test, repo, module, cls, env, negate=True), holder))
     for n in walk_no_nested(fnode):
         if isinstance(n, ast.If) and flow.always_raises(n.body, noreturn):
             out.append((canon_guard(n.test, repo, module, cls, env), n))
@@ -646,6 +664,14 @@ def _ca(e):
             if lin is not None:
                 return _lin_text(sorted(lin[0].items()), lin[1])
         return '%s(%s)' % (type(e.op).__name__, _ca(e.operand))
+    if isinstance(e, ast.Call) and isinstance(e.func, ast.Attribute) and e.func.attr == 'join' and len(e.args) == 1 and not e.keywords \
+            and isinstance(e.func.value, ast.Constant) and e.func.value.value in (b'', '') and isinstance(e.args[0], (ast.List, ast.Tuple)) and e.args[0].elts:
+        # b''.join([a, b, c]) is a + b + c
+        parts = [_ca(x) for x in e.args[0].elts]
+        out = parts[0]
+        for p_ in parts[1:]:
+            out = 'Cat(%s,%s)' % (out, p_)
+        return out
     if isinstance(e, ast.Call) and isinstance(e.func, ast.Name) and e.func.id in ('bytes', 'bytearray') and len(e.args) == 1 \
             and isinstance(e.args[0], (ast.List, ast.Tuple)) and not e.keywords:
         return 'bytes[%s]' % ','.join(_ca(x) for x in e.args[0].elts)
